@@ -87,7 +87,10 @@ func planC03(p *propDef, tier string, seed uint64, n int) []*Case {
 	parallel(nScen, 16, func(i int) {
 		s := mix(seed, uint64(1000+i))
 		t := scen.NewTape(s ^ 0xc03)
-		sc := scen.GenCrawl(t, scen.CrawlOpts{Prop: "C03", MinSeeds: 2, MaxSeeds: 4, Small: true, NoBadSeeds: true, Faults: i%2 == 1, RateLimit: -1})
+		sc := scen.GenCrawl(t, scen.CrawlOpts{Prop: "C03", MinSeeds: 2, MaxSeeds: 4, Small: true, NoBadSeeds: true, Faults: i%2 == 1, RateLimit: -1, Hops: true})
+		if i%3 != 1 && sc.Cfg.MaxHops == 0 {
+			sc.Cfg.MaxHops = 1 // outlinks are forwarded between stages in most scenarios
+		}
 		label := stopMatrix(sc, t, i)
 		sc.Sched.MaxSimSec = 6 * 3600
 		c := &Case{Idx: 900000 + i, Seed: s, Scenario: sc, Label: "profile"}
@@ -120,7 +123,7 @@ func planC03(p *propDef, tier string, seed uint64, n int) []*Case {
 		add(pr, pr.seed, "stop@start", []scen.CtlAction{{Name: "stop", Kind: "stop", Trigger: scen.Trigger{AtStep: 1}}}, nil)
 		add(pr, mix(pr.seed, 7), "stop@idle", nil, nil)
 		// operator pause, then stop while paused / after resume
-		pausePts := []string{"pre.recv", "arch.recv", "fetch.attempt", "fetch.feedback.wait", "post.recv", "fin.recv", "origin.request", "lq.fin.recv"}
+		pausePts := []string{"pre.recv", "arch.recv", "fetch.attempt", "fetch.feedback.wait", "post.recv", "post.outlink", "fin.produce", "fin.recv", "origin.request", "lq.fin.recv"}
 		for j, pt := range pausePts {
 			if pr.pc[pt] == 0 {
 				continue
